@@ -64,9 +64,12 @@ external(E + 'Engine._parallelize_processes', types={'processes': 'Ref[Process]'
 external('vivarium.core.process:Process.is_step', types={'ret': 'Bool'}, ensures=['ret == self.g_is_step'],
          why_trusted='user-overridable predicate; ghost g_is_step names its answer')
 external(E + '_StepGraph.add_sequential', types={'path': 'Path'}, modifies=['self._sequential_steps', 'self.g_seq'],
-         ensures=['self._sequential_steps == old(self._sequential_steps) + (path,)',
+         ensures=[  # g_seq is the set of paths in the list: a path that is already queued keeps its place (fix F-C05-deriver-twice)
+                  'implies(not has(old(self.g_seq), path), self._sequential_steps == old(self._sequential_steps) + (path,))',
+                  'implies(has(old(self.g_seq), path), self._sequential_steps == old(self._sequential_steps))',
                   'self.g_seq == map_put(old(self.g_seq), path, True)'],
-         why_trusted='list append + validation of the networkx graph (bounded-checked under C05)')
+         why_trusted='list append (unless present) + validation of the networkx graph (bounded-checked under C05; the witness '
+                     'F-C05-deriver-twice checks that a re-registered path is not queued twice)')
 external(E + '_StepGraph.add', types={'path': 'Path', 'dependencies': 'Seq[Path]'}, modifies=['self.g_deps'],
          ensures=['self.g_deps == map_put(old(self.g_deps), path, dependencies)'],
          why_trusted='networkx graph surgery; the execution order is bounded-checked under C05')
@@ -80,8 +83,11 @@ contract(E + 'Engine._add_step_path', props=['C10', 'C05'],
                   'implies(is_none(relative_dependencies), self._step_graph.g_seq == map_put(old(self._step_graph.g_seq), path, True))',
                   'implies(not is_none(relative_dependencies), self._step_graph.g_seq == old(self._step_graph.g_seq))',
                   # a step without a flow entry is a legacy sequential step; with one (even an empty list) it is in the DAG
-                  'implies(is_none(relative_dependencies), self._step_graph._sequential_steps == '
-                  'old(self._step_graph._sequential_steps) + (path,) and self._step_graph.g_deps == old(self._step_graph.g_deps))',
+                  'implies(is_none(relative_dependencies) and not has(old(self._step_graph.g_seq), path), '
+                  'self._step_graph._sequential_steps == old(self._step_graph._sequential_steps) + (path,))',
+                  'implies(is_none(relative_dependencies) and has(old(self._step_graph.g_seq), path), '
+                  'self._step_graph._sequential_steps == old(self._step_graph._sequential_steps))',
+                  'implies(is_none(relative_dependencies), self._step_graph.g_deps == old(self._step_graph.g_deps))',
                   'implies(not is_none(relative_dependencies), self._step_graph._sequential_steps == '
                   'old(self._step_graph._sequential_steps) and has(self._step_graph.g_deps, path))',
                   # C05: every dependency is read relative to the step's parent: norm(path + ('..',) + dep), none lost
